@@ -130,6 +130,7 @@ type faultResult struct {
 	evals     int64
 	dumpDiff  bool
 	firedKind string
+	stuck     bool
 }
 
 func modeOf(s string) faultsql.Mode {
@@ -168,13 +169,13 @@ type faultRig struct {
 }
 
 // observe runs the battery (or shares the run of a state with identical tables when !real).
-func (r *faultRig) observe(db *sql.DB, real bool, res *faultResult) *stateInfo {
-	si, err := r.memo.observe(r.ctx, db, fixedSeed, r.battery, real)
+func (r *faultRig) observe(ctx context.Context, db *sql.DB, real bool, res *faultResult) *stateInfo {
+	si, err := r.memo.observe(ctx, db, fixedSeed, r.battery, real)
 	if err != nil {
 		if res != nil && res.infra == nil {
 			res.infra = err
 		}
-		return runBattery(r.ctx, db, fixedSeed, r.battery)
+		return runBattery(ctx, db, fixedSeed, r.battery)
 	}
 	return si
 }
@@ -209,7 +210,7 @@ func (r *faultRig) baseline(b *faultBase) (viols []faultViol) {
 		return
 	}
 	defer db.Close()
-	b.a0 = r.observe(db, true, nil)
+	b.a0 = r.observe(r.ctx, db, true, nil)
 	plan.Arm(-1, faultsql.ModeNone)
 	err = sqlite.VerifInsertEvents(r.ctx, db, fixedSeed, r.batches[b.batch].o.events())
 	b.n, b.kinds, _ = plan.Disarm()
@@ -217,13 +218,13 @@ func (r *faultRig) baseline(b *faultBase) (viols []faultViol) {
 		b.err = fmt.Errorf("fault-free insertion failed: %w", err)
 		return
 	}
-	b.a1 = r.observe(db, true, nil)
+	b.a1 = r.observe(r.ctx, db, true, nil)
 	// idempotence after success
 	if err := sqlite.VerifInsertEvents(r.ctx, db, fixedSeed, r.batches[b.batch].o.events()); err != nil {
 		viols = append(viols, faultViol{"C14/idempotence: inserting the same batch again after success returns an error", fmt.Sprintf("pre-state %s; batch %s: %v", r.pres[b.pre], r.batches[b.batch].o, err)})
 		return
 	}
-	a2 := r.observe(db, true, nil)
+	a2 := r.observe(r.ctx, db, true, nil)
 	if same, _, d := sameAnswers(b.a1, a2, r.battery); !same {
 		viols = append(viols, faultViol{"C14/idempotence: inserting the same batch again after success changes answers", fmt.Sprintf("pre-state %s; batch %s (%s): after one insertion versus after two: %s", r.pres[b.pre], r.batches[b.batch].o, r.batches[b.batch].what, d)})
 	}
@@ -233,7 +234,21 @@ func (r *faultRig) baseline(b *faultBase) (viols []faultViol) {
 func kindClass(k string) string { return k }
 
 // runPoint runs one fault point (and optionally a second fault during the retry).
+// pointTimeout is a safety net only: a point that does not finish is reported as a cap
+// (exhaustive:false), never as a violation (no wall-clock oracle).
+const pointTimeout = 180 * time.Second
+
 func (r *faultRig) runPoint(p *faultPoint) (res faultResult) {
+	ctx, cancel := context.WithTimeout(r.ctx, pointTimeout)
+	defer cancel()
+	res = r.runPointCtx(ctx, p)
+	if ctx.Err() != nil {
+		res = faultResult{stuck: true, firedKind: res.firedKind}
+	}
+	return
+}
+
+func (r *faultRig) runPointCtx(ctx context.Context, p *faultPoint) (res faultResult) {
 	b := p.base
 	batch := r.batches[b.batch]
 	where := func() string {
@@ -257,7 +272,7 @@ func (r *faultRig) runPoint(p *faultPoint) (res faultResult) {
 		}
 	}()
 	var key0 string
-	key0, _ = dumpKey(r.ctx, db)
+	key0, _ = dumpKey(ctx, db)
 
 	// the faulted attempt(s)
 	attempt := func(k int, mode faultsql.Mode, which string) bool {
@@ -281,7 +296,7 @@ func (r *faultRig) runPoint(p *faultPoint) (res faultResult) {
 				res.infra = fmt.Errorf("crash-point child did not die by SIGKILL (%v): %s", err, out)
 				return false
 			}
-			db, err = openFile(r.ctx, path, plan)
+			db, err = openFile(ctx, path, plan)
 			if err != nil {
 				db = nil
 				res.viols = append(res.viols, faultViol{fmt.Sprintf("C14/atomicity: database cannot be reopened after a crash (fault at %s, mode kill)", kindClass(kind)), where() + ": " + err.Error()})
@@ -290,18 +305,24 @@ func (r *faultRig) runPoint(p *faultPoint) (res faultResult) {
 			res.firedKind = kind
 		} else {
 			plan.Arm(k, mode)
-			err := sqlite.VerifInsertEvents(r.ctx, db, fixedSeed, batch.o.events())
+			err := sqlite.VerifInsertEvents(ctx, db, fixedSeed, batch.o.events())
 			_, _, fired := plan.Disarm()
 			if fired == "" {
 				res.infra = fmt.Errorf("%s: the planned fault did not fire (the %s attempt made fewer than %d calls)", where(), which, k+1)
 				return false
 			}
 			res.firedKind = fired
+			if st := db.Stats(); st.InUse != 0 {
+				// the batch returned but its transaction still holds a connection: with one pooled
+				// connection every later statement would wait for ever
+				res.viols = append(res.viols, faultViol{fmt.Sprintf("C14/atomicity: transaction left open after a failed batch, connection not returned to the pool (fault at %s, mode %s)", kindClass(fired), mode), where() + fmt.Sprintf("; %s attempt; insertEvents returned %v; sql.DBStats.InUse = %d", which, err, st.InUse)})
+				return false
+			}
 			if err == nil {
 				res.viols = append(res.viols, faultViol{fmt.Sprintf("C14/atomicity: insertEvents reports success although a driver call failed (fault at %s, mode %s)", kindClass(fired), mode), where()})
 			}
 		}
-		af := r.observe(db, p.real, &res)
+		af := r.observe(ctx, db, p.real, &res)
 		res.evals += int64(len(r.battery))
 		same, tie, d := sameAnswers(b.a0, af, r.battery)
 		if tie {
@@ -310,7 +331,7 @@ func (r *faultRig) runPoint(p *faultPoint) (res faultResult) {
 		if !same {
 			res.viols = append(res.viols, faultViol{fmt.Sprintf("C14/atomicity: failed batch changed answers (fault at %s, mode %s)", kindClass(kind), mode), where() + fmt.Sprintf("; %s attempt; before the batch versus after the failed batch: %s", which, d)})
 		}
-		if k1, err := dumpKey(r.ctx, db); err == nil && k1 != key0 {
+		if k1, err := dumpKey(ctx, db); err == nil && k1 != key0 {
 			res.dumpDiff = true
 		}
 		return true
@@ -324,11 +345,11 @@ func (r *faultRig) runPoint(p *faultPoint) (res faultResult) {
 		}
 	}
 	// fault-free retry
-	if err := sqlite.VerifInsertEvents(r.ctx, db, fixedSeed, batch.o.events()); err != nil {
+	if err := sqlite.VerifInsertEvents(ctx, db, fixedSeed, batch.o.events()); err != nil {
 		res.viols = append(res.viols, faultViol{fmt.Sprintf("C14/idempotence: retry after a failed batch returns an error (fault at %s, mode %s)", kindClass(b.kinds[p.k]), p.mode), where() + ": " + err.Error()})
 		return
 	}
-	ar := r.observe(db, p.real, &res)
+	ar := r.observe(ctx, db, p.real, &res)
 	res.evals += int64(len(r.battery))
 	same, tie, d := sameAnswers(b.a1, ar, r.battery)
 	if tie {
@@ -338,11 +359,11 @@ func (r *faultRig) runPoint(p *faultPoint) (res faultResult) {
 		res.viols = append(res.viols, faultViol{fmt.Sprintf("C14/idempotence: retry after a failed batch differs from one successful insertion (fault at %s, mode %s)", kindClass(b.kinds[p.k]), p.mode), where() + "; one successful insertion versus failure+retry: " + d})
 	}
 	// and once more after the success
-	if err := sqlite.VerifInsertEvents(r.ctx, db, fixedSeed, batch.o.events()); err != nil {
+	if err := sqlite.VerifInsertEvents(ctx, db, fixedSeed, batch.o.events()); err != nil {
 		res.viols = append(res.viols, faultViol{"C14/idempotence: inserting the same batch again after success returns an error", where() + ": " + err.Error()})
 		return
 	}
-	ar2 := r.observe(db, p.real, &res)
+	ar2 := r.observe(ctx, db, p.real, &res)
 	res.evals += int64(len(r.battery))
 	if same, _, d := sameAnswers(b.a1, ar2, r.battery); !same {
 		res.viols = append(res.viols, faultViol{"C14/idempotence: inserting the same batch again after success changes answers", where() + "; after failure+retry+insert again: " + d})
@@ -497,7 +518,7 @@ func sqliteFault(c *vk.Ctx) {
 		res := r.runPoint(points[i])
 		results[i] = &res
 	})
-	done := 0
+	done, nStuck := 0, 0
 	var dumpDiffs int64
 	perMode := map[string]int{}
 	perKind := map[string]int{}
@@ -509,6 +530,10 @@ func sqliteFault(c *vk.Ctx) {
 		}
 		if res.infra != nil {
 			infra("fault point failed: %v", res.infra)
+		}
+		if res.stuck {
+			nStuck++
+			continue
 		}
 		done++
 		perMode[p.mode.String()]++
@@ -535,7 +560,10 @@ func sqliteFault(c *vk.Ctx) {
 			c.Sample(map[string]any{"pre_state": r.pres[p.base.pre].String(), "batch": r.batches[p.base.batch].o.String(), "call": p.k, "call_kind": p.base.kinds[p.k], "mode": p.mode.String(), "calls_of_batch": p.base.n})
 		}
 	}
-	if done < len(points) {
+	if nStuck > 0 {
+		c.Cap(fmt.Sprintf("%d fault point(s) did not finish within %s of wall time and were abandoned", nStuck, pointTimeout))
+	}
+	if done+nStuck < len(points) {
 		c.Cap(fmt.Sprintf("wall budget %s reached: %d of %d fault points run", budget, done, len(points)))
 	}
 	c.DistinctN(int64(done))
